@@ -100,7 +100,7 @@ fn harnesses(tier: Tier) -> Vec<Harness> {
 	v
 }
 
-const API_N: usize = 14;
+const API_N: usize = 20;
 
 /// One read API per index; returns (description, ok). `ok` only demands what must hold under
 /// any interleaving with the writers of these harnesses (the probed output / kernel / headers
@@ -173,6 +173,45 @@ fn api_sweep(chain: &Chain, cx: &Ctx, i: usize) -> (String, bool) {
 			let h = b3.as_ref().unwrap().header.clone();
 			let r = chain.get_merkle_proof(grin_core::core::OutputIdentifier::new(grin_core::core::OutputFeatures::Coinbase, &kc_commit), &h);
 			(format!("get_merkle_proof -> {}", r.is_ok()), r.is_ok())
+		}
+		14 => {
+			// position of the probed output through the index, then the output itself by position
+			let pos = chain.get_output_pos(&kc_commit);
+			let r = pos.as_ref().ok().map(|p| chain.get_unspent_output_at(*p));
+			let ok = matches!(&r, Some(Ok(o)) if o.commitment() == kc_commit);
+			(format!("get_output_pos/get_unspent_output_at -> {:?} {}", pos.as_ref().map_err(|e| format!("{:?}", e)), ok), ok)
+		}
+		15 => {
+			let r = chain.block_height_range_to_pmmr_indices(1, Some(3));
+			let r2 = chain.block_height_range_to_pmmr_indices(2, None);
+			(format!("block_height_range_to_pmmr_indices -> {:?} {}", r.as_ref().map_err(|e| format!("{:?}", e)), r2.is_ok()), r.is_ok() && r2.is_ok())
+		}
+		16 => {
+			// the kernel of block 3 is leaf 3 of the kernel MMR (genesis + one coinbase kernel per block): 1-based index 4 + parents
+			let idx = grin_core::core::pmmr::insertion_to_pmmr_index(3) + 1;
+			let r = chain.get_header_for_kernel_index(idx, None, None);
+			(format!("get_header_for_kernel_index -> {:?}", r.as_ref().map(|h| h.height).map_err(|e| format!("{:?}", e))), r.map(|h| h.height == 3).unwrap_or(false))
+		}
+		17 => {
+			let a = chain.txhashset_archive_header();
+			let b = chain.txhashset_archive_header_header_only();
+			let fp = b3.as_ref().unwrap().header.clone();
+			let c = chain.check_txhashset_needed(&fp);
+			(format!("txhashset_archive_header/_header_only/check_txhashset_needed -> {} {} {:?}", a.is_ok(), b.is_ok(), c.as_ref().ok()), a.is_ok() && b.is_ok() && matches!(c, Ok(false)))
+		}
+		18 => {
+			let h = b3.as_ref().unwrap().hash();
+			let a = chain.get_block(&h);
+			let t = chain.get_tail();
+			let bh = chain.get_block_header(&h);
+			let hh = chain.get_header_by_height(3);
+			(format!("get_block/get_tail/get_block_header/get_header_by_height -> {} {} {} {}", a.is_ok(), t.is_ok(), bh.is_ok(), hh.is_ok()), a.is_ok() && bh.is_ok() && hh.map(|x| x.hash() == h).unwrap_or(false))
+		}
+		19 => {
+			let h = b3.as_ref().unwrap().header.clone();
+			let mut hdr = h.clone();
+			let r = chain.set_prev_root_only(&mut hdr);
+			(format!("set_prev_root_only -> {}", r.is_ok()), r.is_ok())
 		}
 		_ => {
 			let a = chain.block_exists(b3.as_ref().unwrap().hash());
